@@ -188,6 +188,8 @@ def run(ctx):
   total_order(ctx, 'PAIR/total-then-notes')
   single_explicit(ctx)
   change_detection_exact(ctx)
+  every_exit_quantizes(ctx)
+  every_annotation_quantized(ctx)
   # "stretching the sequence and its tempo together gives the same steps": the stretch has to reach every time-bearing container
   from rules import C13 as _c13
   _c13.fields_named(ctx, cov.time_paths(ctx.S), names=('stretch_note_sequence',), rule='STRETCH/fields-named')
@@ -611,6 +613,45 @@ def single_explicit(ctx):
     if f not in seen:
       ctx.ob('FRAME/single-at-zero', fi, fi.node, False, 'quantize_note_sequence no longer reduces %s to its first stored element' % f, construct='%s[0].time = 0; del %s[1:]' % (f, f),
              unknown='no `del <copy>.%s[1:]` found: how the list is reduced to one element is not recognised' % f)
+
+
+def every_annotation_quantized(ctx, rule='FRAME/every-annotation-quantized'):
+  """"every ... text annotation gets its quantized step": _quantize_notes may not select annotations by their type (a chord symbol, a
+  beat and an annotation of unknown type are all stamped).  A filter on annotation_type on the way to the store leaves the others at
+  whatever step they carried - and lets one before time zero through unrejected."""
+  fi = ctx.func(SL + ':_quantize_notes')
+  fn = fi.node
+  sel = []
+  for c in ast.walk(fn):
+    if isinstance(c, (ast.ListComp, ast.GeneratorExp, ast.SetComp)):
+      for g in c.generators:
+        if 'text_annotations' in norm_text(g.iter) and any(isinstance(a, ast.Attribute) and a.attr == 'annotation_type' for f in g.ifs for a in ast.walk(f)):
+          sel.append(c)
+  for st in U.walk_stmts(fn):
+    if isinstance(st, ast.Assign) and len(st.targets) == 1 and isinstance(st.targets[0], ast.Attribute) and st.targets[0].attr == 'quantized_step':
+      for t, _p in U.path_conditions(fn, st):
+        if any(isinstance(a, ast.Attribute) and a.attr == 'annotation_type' for a in ast.walk(t)):
+          sel.append(st)
+  ctx.ob(rule, fi, sel[0] if sel else fn, not sel, 'annotations are quantized whatever their type' if not sel else
+         '_quantize_notes selects text annotations by annotation_type (%s): the annotations of the other types (beats, unknown) keep the step they carried and are not checked for a negative '
+         'step' % norm_text(sel[0])[:70], construct='_quantize_notes stamps every text annotation', definite=True)
+
+
+def every_exit_quantizes(ctx, rule='PAIR/every-exit-quantizes'):
+  """Must-pass-through: every normal exit of quantize_note_sequence / quantize_note_sequence_absolute has run _quantize_notes on
+  the copy (and, before it, the validations that precede it).  A return that comes earlier - "already quantized at this resolution"
+  - hands back a sequence whose steps are whatever the input carried."""
+  for name in ('quantize_note_sequence', 'quantize_note_sequence_absolute'):
+    fi = ctx.func(SL + ':' + name)
+    miss = U.exits_missing_call(fi.node, lambda c: (dotted(c.func) or '').split('.')[-1] == '_quantize_notes')
+    cons = '%s: every normal exit has passed _quantize_notes' % name
+    if not miss:
+      ctx.ob(rule, fi, fi.node, True, 'every normal exit of %s has quantized the notes' % name, construct=cons)
+    for ex in miss:
+      node = ex if ex is not fi.node else fi.node
+      conds = U.path_conditions(fi.node, ex) if ex is not fi.node else []
+      ctx.ob(rule, fi, node, False, '%s can return%s without having called _quantize_notes: the steps, the total and the validation of the result are those of the input, not of this '
+             'quantization' % (name, (' (when %s)' % ' and '.join(('' if p else 'not ') + norm_text(t)[:60] for t, p in conds)) if conds else ''), construct=cons, definite=True)
 
 
 def change_detection_exact(ctx, rule='ESC/change-is-exact'):
